@@ -70,6 +70,15 @@ class ProxyHandler(RequestHandler):
         """
         if not upstream.startswith("gemini://"):
             raise ValueError("Upstream URL must use gemini:// scheme")
+        # The upstream must name a host: with "gemini://" or "gemini:///" the URL
+        # requested upstream would begin with the CLIENT's path, and a request for
+        # "//other-host:port/x" would make the proxy contact that host
+        from ..utils.url import parse_url
+
+        try:
+            parse_url(upstream)
+        except ValueError as e:
+            raise ValueError(f"Invalid upstream URL {upstream!r}: {e}") from e
 
         # Remove trailing slash for consistent path joining
         self.upstream = upstream.rstrip("/")
